@@ -234,6 +234,28 @@ def _srcmap_rule(chk, prog):
                 chk.violation(rule, fn.tu.name, fn.name, "pair", fn.loc, "janetc_emit no longer appends to both buffer and mapbuffer")
     if n < 1:
         raise AnalysisBroken("janetc_emit's buffer appends not found")
+    # truncation / rollback: whoever resets the length of one buffer resets the other
+    m = 0
+    for fn in prog.all_funcs():
+        if fn.tu.name not in ("emit.c", "compile.c", "specials.c", "cfuns.c"):
+            continue
+        def cuts(field):
+            return [x for x in fn.nodes if x.k == "asg" and x.op == "=" and x.kids[0].in_macro("janet_v__cnt")
+                    and any(y.k == "mem" and y.field == field and y.rec == "JanetCompiler" for y in x.kids[0].walk())]
+        cb, cm = cuts("buffer"), cuts("mapbuffer")
+        if cb or cm:
+            m += 1
+            chk.instance(rule)
+            chk.analysed(fn)
+            if cb and cm:
+                chk.ok(rule, "%s rolls back instruction buffer and source map together" % fn.name)
+            else:
+                chk.violation(rule, fn.tu.name, fn.name, "truncate", (cb or cm)[0].loc,
+                              "%s truncates %s but not %s: from here on every instruction of the function is attributed to the "
+                              "source position of a different instruction" % (fn.name, "the instruction buffer" if cb else "the source map",
+                                                                              "the source map" if cb else "the instruction buffer"))
+    if m < 1:
+        raise AnalysisBroken("no rollback of the instruction buffer found (janetc_throwaway)")
 
 
 def _closureflag_rule(chk, prog):
@@ -394,6 +416,37 @@ def _wrflag_rule(chk, prog):
     chk.floor(rule, 60, n)
 
 
+def _sloteq_rule(chk, prog):
+    """janetc_copy skips the move when janetc_sequal says source and destination are the same slot, and the
+    specials use it to decide whether a target can be reused.  Two slots are the same storage only if every
+    identity field agrees: the register, the environment it lives in (a local and an upvalue can share a register
+    number), the flag bits other than the type hint, and - for constants/references - the value."""
+    rule = "C02-SLOTEQ"
+    chk.rule(rule, "janetc_sequal compares every identity field of JanetSlot on both operands")
+    fn = next((f for f in prog.all_funcs() if f.name == "janetc_sequal"), None)
+    if fn is None:
+        raise AnalysisBroken("janetc_sequal not found")
+    chk.analysed(fn)
+    rec = prog.records.get("JanetSlot")
+    if not rec:
+        raise AnalysisBroken("record JanetSlot not found")
+    fields = [f["n"] for f in rec["fields"]]
+    ps = [p["n"] for p in fn.params]
+    for f in fields:
+        chk.instance(rule)
+        seen = set()
+        for x in fn.nodes:
+            if x.k == "mem" and x.field == f and is_ref(strip_casts(x.kids[0])) and strip_casts(x.kids[0]).name in ps:
+                seen.add(strip_casts(x.kids[0]).name)
+        if len(seen) == len(ps) == 2:
+            chk.ok(rule, "janetc_sequal compares .%s of both slots" % f)
+        else:
+            chk.violation(rule, fn.tu.name, fn.name, f, fn.loc,
+                          "janetc_sequal does not compare JanetSlot.%s of both operands (read from: %s): slots that differ only in "
+                          "%s are treated as the same storage and the move between them is dropped" % (f, sorted(seen) or "none", f))
+    chk.floor(rule, 4)
+
+
 _run_commit_only = run
 
 
@@ -406,5 +459,6 @@ def run(chk):   # noqa
     _srcmap_rule(chk, prog)
     _closureflag_rule(chk, prog)
     _wrflag_rule(chk, prog)
+    _sloteq_rule(chk, prog)
     from rules import c02_fields
     c02_fields.run(chk, prog)
